@@ -448,11 +448,14 @@ def uf_family(run, r, n):
         if th is None:
             return
         stats['accepted'] += 1
-        extra = [h for h in th.hyps if not any(h in p.hyps for p in prevs)]
+        extra = [h for h in th.hyps if not any(h in p.hyps for p in prevs if hasattr(p, 'hyps'))]
         if extra:
             run.violation('property', '%s introduces hypotheses that no premise has: %s' % (rule, [sstr(h) for h in extra]),
                           dict(rule=rule, args=[sstr(a) for a in args], prevs=[sstr(p) for p in prevs], result=sstr(th)), key='C18:%s:hyps' % rule)
-        res = z3oracle.entails([p.prop for p in prevs], th.prop)
+        if rule == 'verit_bind':
+            res = z3oracle.entails(list(th.hyps), th.prop)      # the premises offered to bind are valid sequents
+        else:
+            res = z3oracle.entails([p.prop for p in prevs], th.prop)
         if res is None:
             run.stat('uf:undecided:' + rule)
             return
@@ -615,6 +618,21 @@ def uf_family(run, r, n):
             offer('verit_forall_inst', [Or(Not(fa), concl), (x_.name, t_)], [], 'guessed')
         ex = Exists(x_, body)
         offer('verit_forall_inst', [Or(Not(ex), inst), (x_.name, t_)], [], 'guessed')
+
+    # ---- bind: from  x = y |- phi <--> psi  (valid by congruence) to  (Q x. phi) <--> (Q y. psi); the conclusion has no
+    #      hypotheses left and must therefore be valid outright
+    x_, y_, c0 = xs[0], xs[1], xs[2]
+    for _ in range(max(4, n // 4)):
+        pairs = [(P1(x_), P1(y_)), (R2(x_, c0), R2(y_, c0)), (R2(x_, x_), R2(y_, y_)), (R2(x_, y_), R2(x_, y_)), (R2(x_, y_), R2(y_, x_)),
+                 (R2(x_, y_), R2(y_, y_)), (R2(x_, c0), R2(x_, c0)), (And(P1(x_), r.choice(ps)), And(P1(y_), ps[0])), (P1(f1(x_)), P1(f1(y_))),
+                 (R2(f1(x_), y_), R2(f1(y_), y_))]
+        for phi, psi in pairs:
+            prem = Thm(Eq(phi, psi), Eq(x_, y_))
+            if z3oracle.entails([Eq(x_, y_)], Eq(phi, psi)) is not True:
+                continue                                  # keep only premises that are valid
+            for Q in (Forall, Exists):
+                for goal in (Eq(Q(x_, phi), Q(y_, psi)), Eq(Q(x_, phi), Q(x_, psi)), Eq(Q(y_, phi), Q(y_, psi))):
+                    offer('verit_bind', [goal, {x_.name: y_}], [prem], 'guessed')
 
     # ---- shape bank: every boolean simplification rule is offered every left side of the bank with every right side built
     #      from the same sub-formulas (the rule decides, Z3 judges what was accepted)
